@@ -5,7 +5,7 @@ NOTES = ("Solver-based checking of the real code: z3 decides, per program skelet
 ENGINES = [
     {"name": "E4 leaf", "path": "vlib/xh.py", "kind_free_text":
         "CrossHair (symbolic execution of Python with z3) on generated harness modules: shape-concrete, data-symbolic; verdicts parsed per condition, counterexamples replayed concretely",
-     "serves_properties": ["C14"]},
+     "serves_properties": ["C14", "C28"]},
     {"name": "E5 shadow", "path": "vlib/sym.py + vlib/leaf.py", "kind_free_text":
         "proxy values over z3 terms (reals, log values, ints, strings) driven through the real functions by a DFS path driver; builtins shadowed as module globals",
      "serves_properties": ["C12"]},
@@ -78,4 +78,8 @@ CHECKS["C14"] = dict(engine="E4 leaf (CrossHair, vlib/xh.py + vlib/unify_ref.py)
     technique="CrossHair symbolic execution (z3) of the real unify_value / =,\\= builtins / unify_call_head per term-shape pair with symbolic variable identities, postcondition = agreement with a reference Robinson unifier",
     text="Per ordered pair of term shapes (depth <= 2 over variables, anonymous variable, atoms, quoted atom, string, int, float, f/1, g/2, list cells) and entry point, CrossHair explores every path of the real code over the symbolic variable identities and either confirms over all paths that success <=> an mgu exists, the bindings are a unifier, most general up to renaming, never cyclic, \\= is the complement of = - or returns a concrete identity assignment that is replayed.",
     note="Shapes are enumerated (quick: fixed core of 64 pairs + seeded sample; thorough: all pairs with <= 4 variable leaves); identity domains are small (2-3 ids quick, up to 4 thorough). 'Not confirmed' counts as inconclusive. unify_call_return / answers of non-ground top-level queries are NOT covered (see DESIGN.md).")
+CHECKS["C28"] = dict(engine="E4 leaf (CrossHair, vlib/xh.py)", category="other",
+    technique="CrossHair symbolic execution (z3 strings/ints) of the real py2pl/pl2py and problog_export conversion wrappers per value shape; counterexamples replayed concretely",
+    text="Per value shape (nested lists/tuples of length 0-3, depth <= 3) with symbolic int leaves and symbolic string leaves of length <= 3 over the full alphabet, CrossHair confirms over all paths that pl2py(py2pl(v)) equals v with equal types, and that a value returned by an exported function (-int/-str/-list) is read back unchanged as an input of the same type - or returns a concrete value that is replayed.",
+    note="Shapes enumerated; strings <= 3 characters; floats only on concrete witnesses (decimal rounding in Constant is not encoded). Three known findings (keys: tuple as last element of a tuple; exported str with leading/trailing double quote; floats with more than 15 decimals).")
 NOT_APPLICABLE = {"C30": "check file exists (props/c30.py) but its triage is unfinished: it reports violations on the unchanged tree that have not been classified, so the property is not claimed"}
